@@ -906,14 +906,13 @@ def cases(tier, seed):
             out.append({"kind": "mat", **c, "depth": 3 if _ndev(c) <= 1 else 2})
         sims = {"J2lin-PE-QUAD4": 3, "J2voceAF-PS-mixed": 2, "J2lin-Norton-PE-TRI3": 2, "Maxwell2-PE-QUAD4": 2, "J2lin-3D-HEXA8": 2}
     else:
-        full = _material_cfgs(None)
-        for c in full:
+        for c in _material_cfgs(None):
             nd = _ndev(c)
-            if nd <= 1:
+            if nd <= 1 and c["branches"] == "none":
                 for i in range(20):
                     out.append({"kind": "mat", **c, "depth": 4, "first": i})
             else:
-                out.append({"kind": "mat", **c, "depth": 3 if nd <= 2 else 2})
+                out.append({"kind": "mat", **c, "depth": 3 if nd <= 2 else (2 if nd == 3 else 1)})
         sims = {k: 3 for k in SIM_CFGS}
     out.sort(key=lambda c: -c["depth"])  # the expensive cases first (load balance)
     for name, depth in sims.items():
